@@ -444,6 +444,10 @@ func (packet *PacketHandler) ReplaceBind(bindPacket *BindPacket) error {
 
 // GetSimpleQuery return query value as string from Query packet
 func (packet *PacketHandler) GetSimpleQuery() (string, error) {
+	// the query text is followed by a zero terminator, so a Query message without a body is malformed
+	if packet.dataLength < 1 || packet.dataLength-1 > packet.descriptionBuf.Len() {
+		return "", ErrPacketTruncated
+	}
 	return string(packet.descriptionBuf.Bytes()[:packet.dataLength-1]), nil
 }
 
